@@ -132,7 +132,9 @@ def rop_term(op, st):
     if k == 'metaclear':
         return "ROpMetaClear"
     if k == 'metaop':
-        return "ROpMetaSet" if op['method'] in ('update', 'setitem') else "ROpMetaPop"
+        if op['method'] in ('update', 'setitem') or st.get('nkeys_before', 1) > 1:
+            return "ROpMetaSet"
+        return "ROpMetaPop"
     raise ValueError(k)
 
 
@@ -297,13 +299,15 @@ def check_c08r(st):
 
 def item_spec(rng, nt, bo, atom, n, form=None):
     t = tuple(atom)
-    form = form or rng.choice(['nd', 'nd', 'list', 'other'])
+    form = form or rng.choice(['nd', 'nd', 'list', 'other', 'swapped'])
     if n == 0 and t and form == 'list':
         form = 'nd'      # an empty list cannot carry the atom shape
     if form == 'list':
         return dict(kind='list', value=small_values(rng, (n,) + t, 'int64').tolist())
     if form == 'other':
         return nd_spec(small_values(rng, (n,) + t, OTHER_DT[nt]), rng.choice(['C', 'strided', 'neg']))
+    if form == 'swapped':    # the array's own numeric type in the OTHER byte order
+        return nd_spec(rand_array(rng, nt, 'big' if bo == 'little' else 'little', (n,) + t), 'C')
     return nd_spec(rand_array(rng, nt, bo, (n,) + t), rng.choice(['C', 'F', 'strided']))
 
 
@@ -322,6 +326,12 @@ def mk_rop(letter, rng, nt, bo, atom):
     if letter == 'abad':
         bad = (2,) + t + (2,) if rng.random() < 0.5 else ((2,) + tuple(x + 1 for x in t) if t else (2, 2))
         return dict(op='append', items=[nd_spec(small_values(rng, bad, dtype_str(nt, bo)))])
+    if letter == 'asw':
+        return dict(op='append', items=[item_spec(rng, nt, bo, atom, 2, 'swapped')])
+    if letter == 'abig':     # long enough to overflow an int8 / uint8 index
+        return dict(op='iterappend', items=[item_spec(rng, nt, bo, atom, 1, 'nd'),
+                                            nd_spec(small_values(rng, (rng.choice([130, 260]),) + t, dtype_str(nt, bo))),
+                                            item_spec(rng, nt, bo, atom, 1, 'nd')])
     if letter == 'it0':
         return dict(op='iterappend', items=[], aslist=rng.random() < 0.5)
     if letter == 'it2':
@@ -351,12 +361,14 @@ def mk_rop(letter, rng, nt, bo, atom):
         return dict(op='metaset', value={rng.choice(['k1', 'k2']): rng.randrange(100)})
     if letter == 'mc':
         return dict(op='metaclear')
+    if letter == 'mpi':
+        return dict(op='metaop', method='popitem')
     raise ValueError(letter)
 
 
-RALPHABET = ['a0', 'a1', 'a3', 'al', 'aod', 'abad', 'it0', 'it2', 'itbad', 't-1', 't0', 't1', 't2',
+RALPHABET = ['a0', 'a1', 'a3', 'al', 'aod', 'asw', 'abig', 'abad', 'it0', 'it2', 'itbad', 't-1', 't0', 't1', 't2',
              'tbig', 'tni', 'ro', 'mr', 'mrw', 'ms', 'mc']
-RCOMPACT = ['a0', 'a1', 'a3', 'aod', 'it2', 't-1', 't0', 't1', 'ro', 'mr', 'abad']
+RCOMPACT = ['a0', 'a1', 'a3', 'aod', 'asw', 'it2', 't-1', 't0', 't1', 'ro', 'mr', 'abad']
 
 
 def rhistory_case(rng, nt, bo, atom, indextype, sublens, letters, mode='r+', metadata=None):
